@@ -13,6 +13,9 @@ Spec/SqlRef.vos Spec/SqlRef.vok Spec/SqlRef.required_vos: Spec/SqlRef.v
 Spec/FlowRef.vo Spec/FlowRef.glob Spec/FlowRef.v.beautified Spec/FlowRef.required_vo: Spec/FlowRef.v 
 Spec/FlowRef.vio: Spec/FlowRef.v 
 Spec/FlowRef.vos Spec/FlowRef.vok Spec/FlowRef.required_vos: Spec/FlowRef.v 
+Spec/WitnessD2.vo Spec/WitnessD2.glob Spec/WitnessD2.v.beautified Spec/WitnessD2.required_vo: Spec/WitnessD2.v Model/Sys.vo Model/Replay.vo
+Spec/WitnessD2.vio: Spec/WitnessD2.v Model/Sys.vio Model/Replay.vio
+Spec/WitnessD2.vos Spec/WitnessD2.vok Spec/WitnessD2.required_vos: Spec/WitnessD2.v Model/Sys.vos Model/Replay.vos
 Spec/Dialect.vo Spec/Dialect.glob Spec/Dialect.v.beautified Spec/Dialect.required_vo: Spec/Dialect.v 
 Spec/Dialect.vio: Spec/Dialect.v 
 Spec/Dialect.vos Spec/Dialect.vok Spec/Dialect.required_vos: Spec/Dialect.v 
@@ -58,6 +61,9 @@ Model/Aio.vos Model/Aio.vok Model/Aio.required_vos: Model/Aio.v
 Model/Loop.vo Model/Loop.glob Model/Loop.v.beautified Model/Loop.required_vo: Model/Loop.v 
 Model/Loop.vio: Model/Loop.v 
 Model/Loop.vos Model/Loop.vok Model/Loop.required_vos: Model/Loop.v 
+Model/Stack.vo Model/Stack.glob Model/Stack.v.beautified Model/Stack.required_vo: Model/Stack.v Model/MonC02.vo Model/Replay.vo
+Model/Stack.vio: Model/Stack.v Model/MonC02.vio Model/Replay.vio
+Model/Stack.vos Model/Stack.vok Model/Stack.required_vos: Model/Stack.v Model/MonC02.vos Model/Replay.vos
 Model/Sys.vo Model/Sys.glob Model/Sys.v.beautified Model/Sys.required_vo: Model/Sys.v Model/Coro.vo
 Model/Sys.vio: Model/Sys.v Model/Coro.vio
 Model/Sys.vos Model/Sys.vok Model/Sys.required_vos: Model/Sys.v Model/Coro.vos
@@ -253,9 +259,9 @@ Props/C11.vos Props/C11.vok Props/C11.required_vos: Props/C11.v Model/Mon.vos Mo
 Props/C02.vo Props/C02.glob Props/C02.v.beautified Props/C02.required_vo: Props/C02.v Model/Mon.vo Model/MonC01.vo Model/MonC02.vo Model/MonC03.vo Proofs/SysInv.vo Proofs/PC01.vo Proofs/PC03.vo Proofs/PC02.vo
 Props/C02.vio: Props/C02.v Model/Mon.vio Model/MonC01.vio Model/MonC02.vio Model/MonC03.vio Proofs/SysInv.vio Proofs/PC01.vio Proofs/PC03.vio Proofs/PC02.vio
 Props/C02.vos Props/C02.vok Props/C02.required_vos: Props/C02.v Model/Mon.vos Model/MonC01.vos Model/MonC02.vos Model/MonC03.vos Proofs/SysInv.vos Proofs/PC01.vos Proofs/PC03.vos Proofs/PC02.vos
-Props/C13.vo Props/C13.glob Props/C13.v.beautified Props/C13.required_vo: Props/C13.v Model/Mon.vo Model/MonC13.vo Model/Valid.vo Model/Route.vo Model/Plug.vo Proofs/Discipline.vo Proofs/SysInv.vo Proofs/PC13.vo
-Props/C13.vio: Props/C13.v Model/Mon.vio Model/MonC13.vio Model/Valid.vio Model/Route.vio Model/Plug.vio Proofs/Discipline.vio Proofs/SysInv.vio Proofs/PC13.vio
-Props/C13.vos Props/C13.vok Props/C13.required_vos: Props/C13.v Model/Mon.vos Model/MonC13.vos Model/Valid.vos Model/Route.vos Model/Plug.vos Proofs/Discipline.vos Proofs/SysInv.vos Proofs/PC13.vos
+Props/C13.vo Props/C13.glob Props/C13.v.beautified Props/C13.required_vo: Props/C13.v Model/Mon.vo Model/MonC13.vo Model/Valid.vo Model/Route.vo Model/Plug.vo Proofs/Discipline.vo Proofs/SysInv.vo Proofs/PC13.vo Spec/WitnessD2.vo
+Props/C13.vio: Props/C13.v Model/Mon.vio Model/MonC13.vio Model/Valid.vio Model/Route.vio Model/Plug.vio Proofs/Discipline.vio Proofs/SysInv.vio Proofs/PC13.vio Spec/WitnessD2.vio
+Props/C13.vos Props/C13.vok Props/C13.required_vos: Props/C13.v Model/Mon.vos Model/MonC13.vos Model/Valid.vos Model/Route.vos Model/Plug.vos Proofs/Discipline.vos Proofs/SysInv.vos Proofs/PC13.vos Spec/WitnessD2.vos
 Props/C15.vo Props/C15.glob Props/C15.v.beautified Props/C15.required_vo: Props/C15.v Gen/Status.vo Spec/Front15.vo Model/Coro.vo Model/Equiv.vo Model/Render.vo Proofs/PC15.vo
 Props/C15.vio: Props/C15.v Gen/Status.vio Spec/Front15.vio Model/Coro.vio Model/Equiv.vio Model/Render.vio Proofs/PC15.vio
 Props/C15.vos Props/C15.vok Props/C15.required_vos: Props/C15.v Gen/Status.vos Spec/Front15.vos Model/Coro.vos Model/Equiv.vos Model/Render.vos Proofs/PC15.vos
